@@ -135,4 +135,20 @@ CHECKS = {
                 "Non-trivial: probe matched by >=2 scopes, by deny and allow, or a prefix boundary address.",
         "assumptions": COMMON_ASSUME + ["scopes without users are skipped (documented build rule)", "net.ParseIP parses address text; containment arithmetic is the harness' own"],
     },
+    "C10": {
+        "quick": 500, "thorough": 25000,
+        "rule": "rapid draws a two-scope configuration (1..5 user entries over 5 names incl. 255- and 129-byte names, assigned to scope A, B, "
+                "both or none, each with an authenticator variant: none / bcrypt hash / non-hex hash / keychain by key+group with or "
+                "without keychain entry / no options / unregistered type / inherited from the first group that has one; YAML or JSON), "
+                "the scope the connection comes from, and 1..3 interleaved authentication sessions: ASCII login with the user in "
+                "START or in CONTINUE, PAP, wrong/empty/other-user's/other-scope's password, abort at any step, every "
+                "action/type/service/minor START carrying a password, CONTINUE to a fresh session, START mid-exchange, wrong-minor "
+                "CONTINUE, extra packets, non-authentication bodies; START fields small / boundary lengths / 127-byte max-ASCII. "
+                "Oracle: independent evaluator over the model's decoding of the transcript: a clean correct login must receive exactly "
+                "GETUSER?/GETPASS/PASS (or PASS for PAP); any PASS must be justified (LOGIN by PAP@minor1 in START, or ASCII@minor0 "
+                "with a non-abort CONTINUE, carrying a non-empty password that bcrypt-verifies for a user named in the session that "
+                "exists in the connection's scope with a usable authenticator). Non-trivial: history reaches a password prompt, "
+                "uses a user present in both scopes, or contains an out-of-place/odd packet.",
+        "assumptions": COMMON_ASSUME + ["bcrypt.CompareHashAndPassword decides what 'verifies' means", "keychain lookups are by user name (as the bcrypt authenticator does)"],
+    },
 }
